@@ -171,8 +171,19 @@ CLAIMED["C17"] = (
     "DESIGN.md §11.9",
 )
 
+CLAIMED["C19"] = (
+    "symbolic execution of the real Documentation.writeout / PagetreePage.writeout / copytree and of parse_arguments with the file system as a stubbed environment (in-memory tree, every mutating call logged, the crash point a symbolic integer), decided by z3",
+    "Write-out half of C19: for 5 option profiles (media_dir present/missing, css, mathjax_config, incl_src, search, static pages with copy_subdir lists naming missing "
+    "directories) x 4 earlier states of the output directory (absent, a file, stale pages, stale directories) x every crash point k (symbolic, 0..70): every created / "
+    "modified / deleted path lies inside the output directory and all files outside are byte-identical afterwards.  Refusal check: for 4 x 14 spellings of src_dir / "
+    "output_dir (`.`, `..`, nested, absolute, through a symbolic link) the run is refused exactly when a source directory is or lies inside the output directory, before "
+    "any file-system operation.  The real OS, graph_dir, externalize and faults inside one copytree/rmtree are outside.",
+    "Trusted: z3, the DSE engine, the file-system model fv/vfs.py (pathlib/shutil semantics of the calls FORD makes), page rendering stubbed; six hand-made escapes "
+    "(copy beside the output directory, swapped copy arguments, rmtree of the parent, relative MathJax path, copies into page_dir, cleanup of media_dir) are all reported.",
+    "DESIGN.md §11.10",
+)
+
 NOT_APPLICABLE = {
-    "C19": "property is about file-system effects of shutil/pathlib/graphviz calls and injected I/O failures; not a function of symbolic data (DESIGN.md §7)",
 }
 NOT_YET = "obligations for this property are not built yet in this revision (see DESIGN.md §9 build order); not claimed"
 
